@@ -53,8 +53,7 @@ def single_step(chk, impls):
     for name, wrapper, driver, is_c in impls:
         ops, outs, mems, states = [], [], [], []
         for tbl, op in simcorr.all_slots():
-            for _ in range(n):
-                st = simcorr.rand_state(rng, tbl, op, t_bias=t_bias)
+            for st in list(simcorr.rand_state(rng, tbl, op, t_bias=t_bias) for _ in range(n)) + list(counter_sweep(rng, tbl, op)):
                 if is_c:
                     st[4][0] = 1 if (st[4][0] or st[4][1] or st[4][2]) else 0
                 ops.append(simcorr.op_line(*st))
@@ -76,6 +75,33 @@ def single_step(chk, impls):
         chk.compare(f'{name} vs generated model ({driver})', ops, [simcorr.norm(a) for a in outs], [simcorr.norm(b) for b in model])
 
 
+
+
+COUNTER_SLOTS = {('ED', o) for o in (0xA0, 0xA1, 0xA2, 0xA3, 0xA8, 0xA9, 0xAA, 0xAB, 0xB0, 0xB1, 0xB2, 0xB3, 0xB8, 0xB9, 0xBA, 0xBB)} | {('MAIN', 0x10)}
+REGIONS = (0x0000, 0x3FFF, 0x4000, 0x7FFF, 0x8000, 0xBFFF, 0xC000, 0xFFFF)
+
+
+def counter_sweep(rng, tbl, op):
+    """Block instructions and DJNZ: every combination of boundary loop-counter values (BC = 0, 1, 2, 0x100,
+    0x101, 0xFFFF) with source/destination pointers in each memory region, at frame positions inside the
+    contended window (the repeat/exit decision and the contention pattern both depend on the counter)."""
+    if (tbl, op) not in COUNTER_SLOTS:
+        return
+    for bc in (0x0000, 0x0001, 0x0002, 0x0100, 0x0101, 0xFFFF):
+        for hl in REGIONS[1::2]:
+            for de in REGIONS[::2]:
+                regs, fields, mem, ins, tracers = simcorr.rand_state(rng, tbl, op, t_bias=t_bias)
+                regs[2], regs[3] = bc >> 8, bc & 255
+                regs[6], regs[7] = hl >> 8, hl & 255
+                regs[4], regs[5] = de >> 8, de & 255
+                fields[1] = 14335 + 224 * rng.randrange(192) + rng.randrange(128) + 69888 * rng.randrange(2)
+                fields[0] = rng.choice((0x4000, 0x7FF0, 0x8000, 0xC000))
+                for a in list(mem):
+                    del mem[a]
+                for k, b in enumerate(simcorr.slot_bytes(tbl, op, rng)):
+                    mem[(fields[0] + k) % 65536] = b
+                mem[hl] = rng.randrange(256)
+                yield regs, fields, mem, ins, tracers
 
 
 def suspect_slots(chk):
